@@ -17,7 +17,7 @@ import threading
 ID = "C18"
 LEVEL = "exploration"
 TECHNIQUE = "response-history checker under a controlled line-level scheduler (systematic schedules up to a preemption bound)"
-RULE = ("(enumeration modes: all1 = one preemption at every yield point; lock2 = two preemptions, both at lock-related lines or at a handler's run_step call; all2 = two preemptions anywhere) request kinds {run-step, run-steps(2), run-steps(3), stream-steps, stream-steps aborted by the client after the first chunk, "
+RULE = ("(enumeration modes: all1 = one preemption at every yield point; lock2 = two preemptions, both at lock-related lines or at a handler's run_step call; all2 = two preemptions anywhere; lock3 = three preemptions at lock-related lines, thorough tier, three pairs) request kinds {run-step, run-steps(2), run-steps(3), stream-steps, stream-steps aborted by the client after the first chunk, "
         "run-steps whose settings make a step raise, stream-steps closed before the first chunk}; all 28 unordered pairs in modes all1+lock2 (thorough: also all2) and 4 triples (thorough: all 84) in mode lock2; "
         "real locks of the instance are replaced by scheduler-aware locks; fresh instance and session per schedule. Plus, without scheduler, one client thread that reads a stream-steps response (with / without a body) lazily and sends run-step / run-steps / stream-steps (with and without a body) / an aborted stream between two of its chunks: all of them must be refused, the stream stays consecutive - also when a whole-server /save-state (file adapter) is served between two chunks; and after a stream-steps request that the handler rejects (body without settings, unparseable body) later stepping requests are admitted. "
         "distinct_nontrivial = distinct (request-kind combination, schedule) in which the second request observed the session between the "
@@ -65,6 +65,15 @@ def gen_cases(tier, seed):
         for after in (["step"], ["steps2"], ["stream"], ["step-nobody", "stream-nobody"]):
             cases.append(dict(mode="samethread", first=None, read=0, between=["step", bad] + list(after), seed=seed))
             cases.append(dict(mode="samethread", first=None, read=0, between=[bad] + list(after), adapter=True, seed=seed))
+    if tier == "quick":
+        # three preemptions at lock-related lines with the first among the first eight alternatives (first use of the instance's lock)
+        for r in range(8):
+            cases.append(dict(kinds=[k["steps2"], k["step"]], stride=r, K=8, mode="lock3", first_max=8, seed=seed))
+    if tier == "thorough":
+        # three preemptions, all at lock-related lines, for three pairs (a window that only opens on the FIRST use of a lazily created guard needs them)
+        for p3 in ((k["step"], k["step"]), (k["steps2"], k["step"]), (k["stream"], k["step"])):
+            for r in range(32):
+                cases.append(dict(kinds=list(p3), stride=r, K=32, mode="lock3", seed=seed))
     K3 = 16
     for t in triples:
         for r in range(K3):
@@ -175,8 +184,12 @@ def one_schedule(kinds, schedule):
     sched = LineScheduler(_sel["codes"], expected=len(kinds), schedule=schedule, line_filter=lambda code, line: (code.co_filename, line) in _sel["lines"])
     from vlib.linesched import model_locks
     modelled = model_locks(sched, inst, app, app._instance_manager)
+    import sys as _sys
+    import BPTK_Py.server.bptkServer as _smod
+    _bmod = _sys.modules["BPTK_Py.bptk"]          # (the package attribute BPTK_Py.bptk is the class, not the module)
+    from vlib.linesched import lock_factories
     try:
-        with sched:
+        with lock_factories(sched, _bmod, _smod), sched:
             threads = []
             for i, k in enumerate(kinds):
                 def target(i=i, k=k):
@@ -423,20 +436,31 @@ def run_case(case):
         return "held", None, sched
     st, w, base = attempt([])
     if st == "held":
-        only = _sel["locklines"] if case["mode"] == "lock2" else None
+        only = _sel["locklines"] if case["mode"] in ("lock2", "lock3") else None
         alts = alternatives(base.trace, only)
+        if case.get("first_max"):
+            alts = alts[:case["first_max"]]
         mine = [a for i, a in enumerate(alts) if i % case["K"] == case["stride"]]
         for (d, t) in mine:
             st, w, s1 = attempt([(d, t)])
             if st != "held":
                 break
-            if case["mode"] in ("lock2", "all2"):
+            if case["mode"] in ("lock2", "all2", "lock3"):
                 for (d2, t2) in alternatives(s1.trace, only):
                     if d2 <= d:
                         continue
-                    st, w, _ = attempt([(d, t), (d2, t2)])
+                    st, w, s2 = attempt([(d, t), (d2, t2)])
                     if st != "held":
                         break
+                    if case["mode"] == "lock3":
+                        for (d3, t3) in alternatives(s2.trace, only):
+                            if d3 <= d2:
+                                continue
+                            st, w, _ = attempt([(d, t), (d2, t2), (d3, t3)])
+                            if st != "held":
+                                break
+                        if st != "held":
+                            break
             if st != "held":
                 break
     if st == "violated":
